@@ -16,12 +16,16 @@ def val(v):
   """Concretises a value code: 250 is a nested plain container."""
   if v == 250:
     return {'q': [1]}
+  if v == 251:
+    return None
   return v
 
 
 def unval(x):
   if isinstance(x, dict) and dict(x) == {'q': [1]}:
     return 250
+  if x is None:
+    return 251
   return x
 
 
@@ -236,3 +240,34 @@ def norm_ret(ret):
   if isinstance(ret, tuple):
     return list(ret)
   return ret
+
+
+def rebind_apply(xs: list, op: dict, symbolic: bool):
+  """One batched rebind with two index entries on a long list: (outcome, content after).
+
+  The builtin side applies the two entries by hand, higher index first (each entry addresses a position of the
+  list as it was before the call)."""
+  vals = {op['i']: (op['ki'], 401), op['j']: (op['kj'], 402)}
+  try:
+    if symbolic:
+      x = pg.List(xs)
+      arg = {}
+      for idx, (k, v) in vals.items():
+        arg[idx] = v if k == 'set' else pg.MISSING_VALUE if k == 'del' else pg.Insertion(v)
+      # the entries are given lowest index first and highest index first alternately: the order of the argument must not matter
+      if (op['i'] + op['j']) % 2:
+        arg = dict(reversed(list(arg.items())))
+      x.rebind(arg)
+    else:
+      x = list(xs)
+      for idx in sorted(vals, reverse=True):
+        k, v = vals[idx]
+        if k == 'set':
+          x[idx] = v
+        elif k == 'del':
+          del x[idx]
+        else:
+          x.insert(idx, v)
+    return 'ok', list(x)
+  except Exception as e:  # pylint: disable=broad-except
+    return err(e), list(x)
